@@ -1,0 +1,73 @@
+//go:build verif
+
+package operation
+
+// The operation pool over the node's key-value state (checked by /verif/gocv; comment-only file).
+//
+// Ghost model of state.State (one store): $kvHas = keys present, $kv = their values, $kvWrites = number of Set calls.
+//@ ghost var $kv mmap[string, bytesvalue]
+//@ ghost var $kvHas set[string]
+//@ ghost var $kvWrites int
+//@ ghost var $lastSetKey string
+// ids of the tombstones last read by getDeletedOperations
+//@ ghost var $tomb set[string]
+
+//@ func (github.com/lidofinance/dc4bc/client/modules/state.State).Get
+//@   assumed
+//@   pure
+//@   ensures result1 == nil ==> ((result0 != nil) <==> (key in $kvHas))
+//@   ensures result1 == nil && result0 != nil ==> content(result0) == $kv[key]
+//@ func (github.com/lidofinance/dc4bc/client/modules/state.State).Set
+//@   assumed
+//@   pure
+//@   epilogue $kvWrites = old($kvWrites) + 1
+//@   epilogue $lastSetKey = key
+//@   epilogue $kvHas = ite(result == nil, with(old($kvHas), key, true), old($kvHas))
+//@   epilogue $kv = ite(result == nil, with(old($kv), key, content(value)), old($kv))
+
+// A restart must keep what an earlier run stored: a key that exists is not written.
+//@ func (*BaseOperationRepo).initJsonKey
+//@   nosafety
+//@   requires r != nil
+//@   pure
+//@   modifies $kv, $kvHas, $kvWrites, $lastSetKey
+//@   ensures[C13.restart.keep] old(key in $kvHas) ==> $kvWrites == old($kvWrites) && $kv == old($kv) && $kvHas == old($kvHas)
+//@   ensures[C13.restart.only] forall k string :: k != key ==> $kv[k] == old($kv[k]) && ((k in $kvHas) == old(k in $kvHas))
+
+//@ func NewOperationRepo
+//@   nosafety
+//@   pure
+//@   modifies $kv, $kvHas, $kvWrites, $lastSetKey
+//@   ensures[C13.restart.keep] forall k string :: old(k in $kvHas) ==> (k in $kvHas) && $kv[k] == old($kv[k])
+
+// Retired operations never come back: whatever is offered as pending excludes every tombstone that was read.
+//@ func (*BaseOperationRepo).getDeletedOperations
+//@   nosafety
+//@   requires r != nil
+//@   pure
+//@   epilogue $tomb = ite(result1 == nil && result0 != nil, dom(result0), old($tomb))
+//@   ensures result1 == nil ==> result0 != nil && fresh(result0)
+
+//@ func (*BaseOperationRepo).GetOperations
+//@   nosafety
+//@   requires r != nil
+//@   pure
+//@   modifies $tomb
+//@   loop 0 invariant forall id string :: id in result ==> !(id in $tomb)
+//@   ensures result1 == nil ==> fresh(result0)
+//@   ensures[C15.pool.tombstones] result1 == nil ==> result0 != nil && (forall id string :: id in result0 ==> !(id in $tomb))
+
+// The tombstone is written before the pool entry is removed, so that no crash point revives a retired operation.
+//@ func (*BaseOperationRepo).DeleteOperation
+//@   nosafety
+//@   requires r != nil && operation != nil
+//@   pure
+//@   modifies $kv, $kvHas, $kvWrites, $lastSetKey, $tomb
+//@   ensures[C13.tombstone.first] $kvWrites == old($kvWrites) + 1 ==> $lastSetKey == r.deleteOperationsCompositeKey
+
+//@ func (*BaseOperationRepo).GetOperationByID
+//@   nosafety
+//@   requires r != nil
+//@   pure
+//@   modifies $tomb
+//@   ensures[C15.retire.once] result1 == nil ==> !(operationID in $tomb)
